@@ -335,6 +335,13 @@ func init() {
 				core.RejectWhen{Fn: mpm + "evmTxNonceCheck", Name: "a pending tx of the sender has the same nonce",
 					L: core.And(core.CallsAny("types.(*Transaction).GetNonce"), core.Not(core.Mentions("param:0"))), R: core.And(core.CallsAny("types.(*Transaction).GetNonce"), core.Mentions("param:0")), Rel: token.EQL}.Check(r)
 			}),
+			rule("R22e", "the per-sender limit is enforced before anything is inserted (txCache.Push)", 3, func(r *Run) {
+				sp := spec(isTrue("can-push", mp+"(*AccountTxIndex).CanPush"), errNil("queued", mp+"QueueCache.Push"))
+				core.Dominated{Fn: mpc + "Push", Spec: sp, Sink: core.CallSink(mp+"QueueCache.Push"), Need: []Fact{"can-push"}, Min: 1}.Check(r)
+				core.Dominated{Fn: mpc + "Push", Spec: sp, Sink: core.CallSink(mp+"(*AccountTxIndex).Push"), Need: []Fact{"can-push", "queued"}, Min: 1}.Check(r)
+				core.ReturnsRel{Fn: mp + "(*AccountTxIndex).CanPush", Name: "sender size < maxperaccount", L: core.Not(core.Mentions(mp + "AccountTxIndex.maxperaccount")),
+					R: core.IsObj(mp + "AccountTxIndex.maxperaccount"), Rel: token.LSS}.Check(r)
+			}),
 			rule("R22d", "rejection reasons are live", 9, func(r *Run) {
 				core.LiveReturn{Fn: mpm + "checkTxs", Sentinels: []string{"types.ErrEmptyTx"}}.Check(r)
 				core.LiveReturn{Fn: mpm + "checkTx", Sentinels: []string{"types.ErrInvalidAddress", "types.ErrManyTx"}}.Check(r)
